@@ -71,6 +71,9 @@ type SpecOut struct {
 	Catches     []CatchObs
 	// Violations counts nodes whose own constraints are violated (issues before catching).
 	CaughtCount int
+	Detailed    []DetIss
+	cur         *Node
+	curIdx      int
 	risky       bool
 	postGated   bool
 }
@@ -81,8 +84,17 @@ func (o *SpecOut) unknown(f string, a ...any) {
 	}
 }
 
+// DetIss ties an expected issue to the node and test that produce it
+// (Idx: test index, -1 required / not_nil, -2 coerce, 999 custom function).
+type DetIss struct {
+	Iss
+	Node *Node
+	Idx  int
+}
+
 func (o *SpecOut) add(path, code, dtype string) {
 	o.Issues = append(o.Issues, Iss{Path: path, Code: code, Dtype: dtype})
+	o.Detailed = append(o.Detailed, DetIss{Iss: Iss{Path: path, Code: code, Dtype: dtype}, Node: o.cur, Idx: o.curIdx})
 }
 
 func (o *SpecOut) ran(n *Node, idx int) {
@@ -185,6 +197,7 @@ func runTests(n *Node, dst reflect.Value, path string, out *SpecOut) {
 		if ts.Opts.Path != "" {
 			p = ts.Opts.Path
 		}
+		out.cur, out.curIdx = n, i
 		out.add(p, ExpectedCode(n.Kind, ts), n.ZType())
 	}
 }
@@ -269,6 +282,7 @@ func specParse(n *Node, cfg SpecCfg, in any, dst reflect.Value, path string, loc
 					out.schedulePosts(n, dst, false)
 					return
 				}
+				out.cur, out.curIdx = n, -1
 				out.add(reqPath(n, path), reqCode(n, "required"), n.ZType())
 				return
 			default:
@@ -287,6 +301,7 @@ func specParse(n *Node, cfg SpecCfg, in any, dst reflect.Value, path string, loc
 					out.schedulePosts(n, dst, false)
 					return
 				}
+				out.cur, out.curIdx = n, -2
 				out.add(path, "coerce", n.ZType())
 				return
 			}
@@ -303,6 +318,7 @@ func specParse(n *Node, cfg SpecCfg, in any, dst reflect.Value, path string, loc
 					elems = append(elems, reflect.ValueOf(e.Go()).Convert(dst.Type().Elem()).Interface())
 				}
 			case n.Req:
+				out.cur, out.curIdx = n, -1
 				out.add(reqPath(n, path), reqCode(n, "required"), "slice")
 				return
 			default:
@@ -311,6 +327,7 @@ func specParse(n *Node, cfg SpecCfg, in any, dst reflect.Value, path string, loc
 			}
 		} else if n.Coercer == "custom" || n.Coercer == "global" {
 			if s, ok := in.(string); ok && s == "COERCE-ERR" {
+				out.cur, out.curIdx = n, -2
 				out.add(path, "coerce", "slice")
 				return
 			}
@@ -349,6 +366,7 @@ func specParse(n *Node, cfg SpecCfg, in any, dst reflect.Value, path string, loc
 				out.unknown("struct schema given %T", in)
 				return
 			}
+			out.cur, out.curIdx = n, -2
 			out.add(path, "coerce", "struct")
 			return
 		}
@@ -361,6 +379,7 @@ func specParse(n *Node, cfg SpecCfg, in any, dst reflect.Value, path string, loc
 	case n.Kind == KPtr:
 		if IsParseAbsent(in) {
 			if n.Req {
+				out.cur, out.curIdx = n, -1
 				out.add(reqPath(n, path), reqCode(n, "not_nil"), n.ZType())
 			}
 			return
@@ -378,6 +397,7 @@ func specParse(n *Node, cfg SpecCfg, in any, dst reflect.Value, path string, loc
 			_, ok = in.(int)
 		}
 		if !ok {
+			out.cur, out.curIdx = n, -2
 			out.add(path, "coerce", "custom")
 			return
 		}
@@ -392,6 +412,7 @@ func specParse(n *Node, cfg SpecCfg, in any, dst reflect.Value, path string, loc
 			if ts.Opts.Path != "" {
 				p = ts.Opts.Path
 			}
+			out.cur, out.curIdx = n, 999
 			out.add(p, ts.Opts.Code, "custom")
 		}
 	default:
@@ -446,6 +467,7 @@ func specValidate(n *Node, cfg SpecCfg, dst reflect.Value, path string, loc []st
 					out.schedulePosts(n, dst, false)
 					return
 				}
+				out.cur, out.curIdx = n, -1
 				out.add(reqPath(n, path), reqCode(n, "required"), n.ZType())
 				return
 			default:
@@ -461,6 +483,7 @@ func specValidate(n *Node, cfg SpecCfg, dst reflect.Value, path string, loc []st
 			case n.Def != nil:
 				SetFromVal(dst, *n.Def)
 			case n.Req:
+				out.cur, out.curIdx = n, -1
 				out.add(reqPath(n, path), reqCode(n, "required"), "slice")
 				return
 			default:
@@ -482,6 +505,7 @@ func specValidate(n *Node, cfg SpecCfg, dst reflect.Value, path string, loc []st
 	case n.Kind == KPtr:
 		if dst.IsNil() {
 			if n.Req {
+				out.cur, out.curIdx = n, -1
 				out.add(reqPath(n, path), reqCode(n, "not_nil"), n.ZType())
 			}
 			return
@@ -498,6 +522,7 @@ func specValidate(n *Node, cfg SpecCfg, dst reflect.Value, path string, loc []st
 			if ts.Opts.Path != "" {
 				p = ts.Opts.Path
 			}
+			out.cur, out.curIdx = n, 999
 			out.add(p, ts.Opts.Code, "custom")
 		}
 	default:
